@@ -192,7 +192,7 @@ var props = map[string]*propConfig{
 			{Name: "uploader-side", Harness: "h2", Flags: map[string]string{"family": "uploader"}, Quick: 8000, Thorough: 2000000},
 		},
 		QuickBudget: 90 * time.Second, ThoroughBudget: 20 * time.Minute, Chunk: 100,
-		Rule:        "one run = a rotating process on a simulated calendar (instants 1990..2060 biased to 23:59:59 / 00:00:00, month, year and leap boundaries, and to the last 90 s of a day), week-end setting valid 0..6 / missing / empty / garbage, 1..3 phases of concurrent increments during which the clock jumps to end-1ns, end, end+1ns, hours or weeks later; the real rotate re-arms itself through the simulated AfterFunc; checked: begin/end/name of every file created against refcal, old files frozen once a rotation completed, rotation liveness after the clock stops, conservation; distinct = distinct event-log hash; in a third of the runs a second program starts at the same moment (shared week-end file, created by whoever comes first); the machine may live in a local time zone; week-end digits also in the forms an editor leaves; checked in addition: no file is created before the end of the one in use (unless the clock was set back), conservation, and crashes of this world are reported here",
+		Rule:        "one run = a rotating process on a simulated calendar (instants 1990..2060 biased to 23:59:59 / 00:00:00, month, year and leap boundaries, and to the last 90 s of a day), week-end setting valid 0..6 / missing / empty / garbage, 1..3 phases of concurrent increments during which the clock jumps to end-1ns, end, end+1ns, hours or weeks later; the real rotate re-arms itself through the simulated AfterFunc; checked: begin/end/name of every file created against refcal, old files frozen once a rotation completed, rotation liveness after the clock stops, conservation; distinct = distinct event-log hash; in a third of the runs a second program starts at the same moment (shared week-end file, created by whoever comes first); the machine may live in a local time zone; week-end digits also in the forms an editor leaves; checked in addition: no file is created before the end of the one in use (unless the clock was set back), conservation, and crashes of this world are reported here; between two phases the user may turn telemetry off while the process lives (one change in four of those made between phases): a rotation at or after a file's recorded end then creates nothing and leaves that file frozen, whatever the process still holds (old-file-written)",
 		Real:        []string{"internal/counter (rotate, rotate1, counterSpan, weekEnd)", "internal/telemetry"},
 		Stub:        []string{"clock and AfterFunc simulated", "Go scheduler"},
 		Assumptions: []string{"uploader-side family (machine world): the run's start time is placed at end-1ns, end, end+1ns and later relative to the recorded end of a counter file on a 1990..2060 calendar; a file is consumed iff its end is before the start time and is reported under the week named by its end date (the C07 oracle with that start time), files not consumed receive no mutating call", "UTC only, as the code"},
